@@ -23,7 +23,7 @@ ASSUMPTIONS = [
     "(|obs-val| <= 1e-7|val| + 1e-12*scale + 10*err) and comparisons whose estimate exceeds 1e-8*scale are skipped",
     "parameter boxes of DESIGN.md section 3; CGMY y kept >= 0.05 away from the integers 0, 1, 2 except exactly 0 and 1",
 ]
-REQUIRED_COUNTERS = ["cmp_integrate", "cmp_x", "cmp_xx", "cmp_xn", "additivity", "sign_rule", "truncated_cmp",
+REQUIRED_COUNTERS = ["cmp_integrate", "cmp_x", "cmp_xx", "cmp_xn", "additivity", "sign_rule", "truncated_cmp", "successive_truncations",
                      "closed_form_calls", "library_quad_calls"]
 MIN_NONTRIVIAL = {"quick": 30, "thorough": 200}
 THOROUGH_ROUNDS = 10      # the thorough tier runs the generators this many times (different seeds)
@@ -74,6 +74,10 @@ def gen_cases(tier, seed):
         elif k % 3 == 2 and k % 2 == 0:
             trunc = [-W.r6(W._logu(rng, 0.3, 8.0)), W.r6(W._logu(rng, 0.3, 8.0))]
         cases.append({"spec": spec, "trunc": trunc, "seed": int(rng.integers(2**31))})
+        if trunc and len(cases) % 3 == 0:
+            # truncated before, on an interval that the later one extends beyond on one side or on both
+            f1, f2 = rng.uniform(0.3, 0.9), rng.uniform(0.3, 1.6)
+            cases[-1]["trunc0"] = [W.r6(trunc[0] * f1), W.r6(trunc[1] * f2)]
     return cases
 
 
@@ -99,6 +103,10 @@ def _intervals(rng, trunc):
     out.append(("touch0-left", -mag(), 0.0))
     a = mag() * (1 if rng.random() < 0.5 else -1)
     out.append(("degenerate", a, a))
+    # wide finite intervals (the bulk of the measure is a small part of them)
+    out.append(("wide-straddle", -W.r6(rng.uniform(5, 100)), W.r6(rng.uniform(5, 100))))
+    out.append(("wide-neg", -W.r6(rng.uniform(20, 100)), -W.r6(rng.uniform(0.1, 0.5))))
+    out.append(("wide-pos", W.r6(rng.uniform(0.1, 0.5)), W.r6(rng.uniform(20, 100))))
     if trunc:
         l, r = trunc
         out.append(("beyond-truncation", W.r6(r * 1.5), W.r6(r * 4)))
@@ -135,7 +143,14 @@ def _run_case(case, R, mon):
     nu = base_nu
     label = W.model_label(spec).replace("-levy", "")
     if trunc:
-        model.truncate_levy_measure(tuple(trunc))
+        if case.get("trunc0"):
+            # a history of truncations: an earlier one, then `trunc`; the measure is restricted to the intersection
+            model.truncate_levy_measure(tuple(case["trunc0"]))
+            R.hit("successive_truncations")
+            model.truncate_levy_measure(tuple(trunc))
+            trunc = [max(trunc[0], case["trunc0"][0]), min(trunc[1], case["trunc0"][1])]
+        else:
+            model.truncate_levy_measure(tuple(trunc))
         nu = model.levy_triplet.nu
         label_t = label
     else:
